@@ -1,6 +1,6 @@
 #!/usr/bin/env python3
 """Structural assumptions of the model about /repo/src (non-test code).
-   scan(root) -> {"unsafe_sites": [...], "global_state": [...]}
+   scan(root) -> {"unsafe_sites": [...], "global_state": [...], "lossy_tags": [...]}
    The model renders every decoder/encoder as a PURE function and proves the logical preconditions of a
    fixed set of `unsafe` idioms; this scan is what ties those two assumptions to the source on every run."""
 import os, re, json, sys
@@ -11,6 +11,17 @@ GLOBAL = [
     (r"\blazy_static\s*!", "lazy_static!"),
     (r"\bstatic\s+\w+\s*:\s*[^=;]*\b(Atomic\w*|Mutex|RwLock|RefCell|Cell|UnsafeCell|OnceLock|OnceCell|LazyLock|Lazy)\b", "static with interior mutability"),
     (r"\b(once_cell|parking_lot|lazy_static)::", "global-state crate"),
+]
+
+
+# idioms by which code computes a LOSSY tag (hash, fingerprint, checksum) of a text or byte string: the model
+# compares texts and byte strings by value everywhere, so code that treats "equal tag" as "equal value" is outside it
+TAGS = [
+    (r"\bwrapping_mul\b", "wrapping_mul"),
+    (r"\brotate_(left|right)\b", "rotate"),
+    (r"\b(Default)?Hasher\b|\bBuildHasher\b|\bRandomState\b|::hash::", "std hashing"),
+    (r"\.hash\s*\(|\bhash_one\b", "hash call"),
+    (r"(?i)\b\w*(fnv|crc32|crc|adler|murmur|siphash|xxhash|fingerprint|checksum|digest)\w*\b", "hash-like name"),
 ]
 
 
@@ -32,7 +43,7 @@ def strip_tests(src):
 
 
 def scan(root):
-    unsafe, glob = [], []
+    unsafe, glob, tags = [], [], []
     for d, _, fs in sorted(os.walk(os.path.join(root, "src"))):
         if "/tests" in d:
             continue
@@ -53,7 +64,11 @@ def scan(root):
                 for pat, what in GLOBAL:
                     if re.search(pat, l):
                         glob.append({"file": os.path.relpath(p, root), "what": what, "code": l.strip()[:200]})
-    return {"unsafe_sites": unsafe, "global_state": glob}
+                for pat, what in TAGS:
+                    if re.search(pat, l):
+                        tags.append({"file": os.path.relpath(p, root), "what": what, "code": l.strip()[:200]})
+                        break
+    return {"unsafe_sites": unsafe, "global_state": glob, "lossy_tags": tags}
 
 
 if __name__ == "__main__":
